@@ -35,7 +35,7 @@ from rtamt.syntax.node.ltl.constant import Constant
 from rtamt.syntax.node.ltl.previous import Previous
 
 from rtamt.exception.exception import RTAMTException
-from rtamt.pastifier.stl.horizon import StlHorizon
+from rtamt.pastifier.stl.horizon import StlHorizon, bounds_in_default_unit
 
 
 class StlPastifier(LtlPastifier, StlAstVisitor):
@@ -44,9 +44,13 @@ class StlPastifier(LtlPastifier, StlAstVisitor):
         LtlPastifier.__init__(self)
         self.node_horizons = dict()
 
-    def pastify(self, ast):
+    def pastify(self, ast, step=1):
+        # step: duration of one sample in the default unit of the specification
         self.ast = ast
+        self.step = step
         h = StlHorizon()
+        h.ast = ast
+        h.step = step
         horizons = dict()
         for spec in ast.specs:
             horizon = h.visit(spec, None)
@@ -76,8 +80,7 @@ class StlPastifier(LtlPastifier, StlAstVisitor):
         return node
 
     def visitTimedEventually(self, node, *args, **kwargs):
-        begin = node.begin
-        end = node.end
+        begin, end = bounds_in_default_unit(node, self.ast)
         horizon = args[0] - end
         node = self.visit(node.children[0], horizon)
         if end - begin > 0:
@@ -85,8 +88,7 @@ class StlPastifier(LtlPastifier, StlAstVisitor):
         return node
 
     def visitTimedAlways(self, node, *args, **kwargs):
-        begin = node.begin
-        end = node.end
+        begin, end = bounds_in_default_unit(node, self.ast)
         horizon = args[0] - end
         node = self.visit(node.children[0], horizon)
         if end - begin > 0:
@@ -94,8 +96,7 @@ class StlPastifier(LtlPastifier, StlAstVisitor):
         return node
 
     def visitTimedUntil(self, node, *args, **kwargs):
-        begin = node.begin
-        end = node.end
+        begin, end = bounds_in_default_unit(node, self.ast)
         horizon = args[0] - end
         child1_node = self.visit(node.children[0], horizon)
         child2_node = self.visit(node.children[1], horizon)
@@ -107,10 +108,11 @@ class StlPastifier(LtlPastifier, StlAstVisitor):
         remaining_horizon = args[0]
         horizon = remaining_horizon - node_horizon
         child_node = self.visit(node.children[0], node_horizon)
+        begin, end = bounds_in_default_unit(node, self.ast)
         if horizon > 0:
-            node = TimedOnce(child_node, Interval(node.begin + horizon, node.end + horizon))
+            node = TimedOnce(child_node, Interval(begin + horizon, end + horizon))
         else:
-            node = TimedOnce(child_node, Interval(node.begin, node.end))
+            node = TimedOnce(child_node, Interval(begin, end))
         return node
 
     def visitTimedHistorically(self, node, *args, **kwargs):
@@ -118,7 +120,8 @@ class StlPastifier(LtlPastifier, StlAstVisitor):
         remaining_horizon = args[0]
         horizon = remaining_horizon - node_horizon
         child_node = self.visit(node.children[0], node_horizon)
-        node = TimedHistorically(child_node, Interval(node.begin, node.end))
+        begin, end = bounds_in_default_unit(node, self.ast)
+        node = TimedHistorically(child_node, Interval(begin, end))
         if horizon > 0:
             node = TimedOnce(node, Interval(horizon, horizon))
         return node
@@ -129,7 +132,8 @@ class StlPastifier(LtlPastifier, StlAstVisitor):
         horizon = remaining_horizon - node_horizon
         child_node_1 = self.visit(node.children[0], node_horizon)
         child_node_2 = self.visit(node.children[1], node_horizon)
-        node = TimedSince(child_node_1, child_node_2, Interval(node.begin, node.end))
+        begin, end = bounds_in_default_unit(node, self.ast)
+        node = TimedSince(child_node_1, child_node_2, Interval(begin, end))
         if horizon > 0:
             node = TimedOnce(node, Interval(horizon, horizon))
         return node
@@ -138,8 +142,7 @@ class StlPastifier(LtlPastifier, StlAstVisitor):
         node_horizon = self.subformula_horizons[node]
         remaining_horizon = args[0]
         horizon = remaining_horizon - node_horizon
-        end = node.end
-        begin = node.begin
+        begin, end = bounds_in_default_unit(node, self.ast)
         child1_node = self.visit(node.children[0], node_horizon)
         child2_node = self.visit(node.children[1], node_horizon)
         node = TimedPrecedes(child1_node, child2_node, Interval(begin, end))
@@ -413,12 +416,12 @@ class StlPastifier(LtlPastifier, StlAstVisitor):
         return node
 
     def visitNext(self, node, *args, **kwargs):
-        horizon = args[0] - 1
+        horizon = args[0] - self.step
         child_node = self.visit(node.children[0], horizon)
         return child_node
 
     def visitStrongNext(self, node, *args, **kwargs):
-        horizon = args[0] - 1
+        horizon = args[0] - self.step
         child_node = self.visit(node.children[0], horizon)
         return child_node
 
